@@ -1135,6 +1135,8 @@ pub fn evaluate(env: &Env, ops: &[Op], si: usize, ev: &mut Evaluated) {
     ev.post_fps.push(holdings_fp(&after_a, &after_b, st.name));
     let mut all_ok = true;
     let mut refund_seen = false;
+    let mut skipped_account = false;
+    let violations_before = ev.violations.len();
     for (label, acct, before, after) in [("A", st.a, &st.before_a, after_a), ("B", st.b, &st.before_b, after_b)] {
         let (flows, rejected) = match flows_of(commit, acct) {
             Ok(x) => x,
@@ -1149,6 +1151,7 @@ pub fn evaluate(env: &Env, ops: &[Op], si: usize, ev: &mut Evaluated) {
             ev.infos.push("account-events-do-not-explain-vault-changes (account skipped)".into());
             ev.infos.push(mc_core::truncate(&format!("events-vs-state: {e}"), 160));
             all_ok = false;
+            skipped_account = true;
             continue;
         }
         let findings = claims.judge_account(&actual, &acct);
@@ -1198,8 +1201,12 @@ pub fn evaluate(env: &Env, ops: &[Op], si: usize, ev: &mut Evaluated) {
         } else {
             "exec:success:bounds-hold"
         }
+    } else if skipped_account {
+        "exec:success:account-skipped(events-do-not-explain-state)"
+    } else if ev.violations[violations_before..].iter().all(|v| v.key.starts_with("via-C37-normalize-empty-allowlist:")) {
+        "exec:success:bound-violated-through-the-C37-normalize-route"
     } else {
-        "exec:success:BOUNDS-VIOLATED-or-skipped"
+        "exec:success:BOUNDS-VIOLATED"
     };
     ev.classes.push(cls.into());
     if ev.sample.is_none() {
